@@ -632,6 +632,108 @@ func exec(op string) vlib.Res {
 		}
 		return vlib.Res{Impl: impl, Oracle: or, Tags: tags}
 
+	case "edns hitchase":
+		// a bare alias and its target, both admitted; the alias asked on the byte route
+		path, proto := f[2], f[3]
+		q, ra := parseQ(f[4]), parseR(f[5])
+		tq, rt := parseQ(f[6]), parseR(f[7])
+		raw := rawQuery(q)
+		orig := new(dns.Msg)
+		if err := orig.Unpack(raw); err != nil {
+			return vlib.Res{Impl: "undecodable"}
+		}
+		ccfg := curCfg.config()
+		ccfg.CacheSize, ccfg.Expire = 1024, 600
+		c := cache.New(ccfg)
+		defer c.Stop()
+		for _, pr := range []struct {
+			q aQ
+			r aR
+		}{{q, ra}, {tq, rt}} {
+			admit := new(dns.Msg)
+			_ = admit.Unpack(rawQuery(pr.q))
+			cache.VerifC06Seed(c, buildUpstream(pr.r, admit))
+		}
+		w := newCapW(proto)
+		missed := false
+		terminal := middleware.HandlerFunc(func(_ context.Context, ch *middleware.Chain) {
+			missed = true
+			ch.Cancel()
+		})
+		ch := middleware.NewChain([]middleware.Handler{recovery.New(ccfg), curEDNS, c, terminal})
+		var rq middleware.Request
+		if path == "w" && rq.ParseWire(raw, time.Now(), nil) {
+			ch.ResetWire(w, &rq)
+		} else {
+			req := new(dns.Msg)
+			_ = req.Unpack(raw)
+			ch.Reset(w, req)
+		}
+		ch.AllowDirectPack()
+		chase0, _ := cache.VerifC06WireCounters()
+		ch.Next(context.Background())
+		ch.Finish()
+		c1, _ := cache.VerifC06WireCounters()
+		if missed || w.raw == nil || c1 == chase0 {
+			return vlib.Res{Impl: "declined", Oracle: "-", Tags: "hitchase-declined"}
+		}
+		impl := sortOptions(curCfg.ctx().absReply(w.msg, orig))
+		or := judgeHinted("edns/hitchase-"+proto, entryKind{proto: proto}, curCfg.deploy(), raw, w.raw, aR{})
+		return vlib.Res{Impl: impl, Oracle: or, Tags: "nt,hitchase,wire-chase-composed"}
+
+	case "edns failover":
+		ensureFallbacks()
+		path, proto := f[2], f[3]
+		q, r := parseQ(f[4]), parseR(f[5])
+		f1, f2 := parseR(f[6]), parseR(f[7])
+		for i, sc := range []aR{f1, f2} {
+			fallbacks[i].mu.Lock()
+			fallbacks[i].script = sc
+			fallbacks[i].mu.Unlock()
+		}
+		raw := rawQuery(q)
+		orig := new(dns.Msg)
+		if err := orig.Unpack(raw); err != nil {
+			return vlib.Res{Impl: "undecodable"}
+		}
+		w := newCapW(proto)
+		st := &scripted{r: r, q: q}
+		ch := middleware.NewChain([]middleware.Handler{recovery.New(curCfg.config()), curEDNS, failoverMW, st})
+		var rq middleware.Request
+		if path == "w" && rq.ParseWire(raw, time.Now(), nil) {
+			ch.ResetWire(w, &rq)
+		} else {
+			req := new(dns.Msg)
+			_ = req.Unpack(raw)
+			ch.Reset(w, req)
+		}
+		ch.Next(context.Background())
+		ch.Finish()
+		if st.lensBad != "" {
+			return vlib.Res{Impl: st.lensBad}
+		}
+		impl := curCfg.ctx().absReply(w.msg, orig)
+		or := "-"
+		if w.msg != nil {
+			if packed, err := packReply(w.msg); err != nil {
+				or = fail("edns/failover-"+proto+"/reply/unpackable", err.Error())
+			} else {
+				jp := map[string]string{"doq": "doq-noid"}[proto]
+				if jp == "" {
+					jp = proto
+				}
+				or = judgeHinted("edns/failover-"+proto, entryKind{proto: jp}, curCfg.deploy(), raw, packed, aR{})
+			}
+		}
+		tags := "nt,failover"
+		if r.mode == 'e' && r.rcode == dns.RcodeServerFailure && q.rd && q.opcode == 0 {
+			tags += ",failover-retried"
+			if f1.rcode == dns.RcodeServerFailure && f2.rcode == dns.RcodeServerFailure {
+				tags += ",failover-all-failed"
+			}
+		}
+		return vlib.Res{Impl: impl, Oracle: or, Tags: tags}
+
 	case "edns tomsg":
 		q, r := parseQ(f[2]), parseR(f[3])
 		raw := rawQuery(q)
